@@ -7,8 +7,9 @@ from symex.core import And, Or, Not, Implies, Iff, count_true, same_float, same_
 
 class H:
     def __init__(self, name, fn, quick, thorough, cover=(), doc='', float_model='-', assumptions=(),
-                 slice_s=8, query_timeout_ms=120000, logic=None):
+                 slice_s=8, query_timeout_ms=120000, logic=None, scripted=False):
         self.logic = logic
+        self.scripted = scripted
         self.name, self.fn, self.quick, self.thorough = name, fn, quick, thorough
         self.cover = list(cover)
         self.doc = doc
